@@ -653,7 +653,10 @@ class DAGRunConcurrentManager(DAGRunManagerLike):
             self._node_storage.set_node_result(node_id, result)
 
             # TODO: Needs to reorganize saving policy for artifact storage
-            await self.ctx.save_node_result(node_id, result)
+            # Only a node's final value is an artifact: neither the marker that asks for another iteration of
+            # a recurrent subgraph nor a failure that is contained by a OneOf.
+            if not isinstance(result, (Recurrent, BaseException)):
+                await self.ctx.save_node_result(node_id, result)
 
         finally:
             if not to_unlock_descendants:
